@@ -127,7 +127,7 @@ Inductive want := WVal (v : Z) | WDone | WRaise (e : exn) | WFree.
 Definition kind_code (g : rule) : Z :=
   match g with
   | RPol PPython => 0 | RPol (PAny _) => 1 | RPol PDisallow => 2 | RPol (PReadOnly _) => 3
-  | RPol (PConstant _) => 4 | RPol (PEvent _) => 5 | RPol (PTyped _ _) | RPol (PMap _ _) => 6
+  | RPol (PConstant _) => 4 | RPol (PEvent _) => 5 | RPol (PTyped _ _) | RPol (PMap _ _) | RPol PList => 6
   | RPol (PShadow _) => 1
   | RDunder => 7 | RNone => 8
   end.
@@ -144,6 +144,7 @@ Definition demand (g : rule) (sb : option Z) (o : op) : want * option (option Z)
        | RPol PPython => match sb with Some v => WVal v | None => WRaise AttributeError end
        | RPol (PAny d) | RPol (PTyped _ d) | RPol (PReadOnly d) =>
            match sb with Some v => WVal v | None => WVal d end      (* ReadOnly: d = Undefined until defined *)
+       | RPol PList => match sb with Some v => WVal v | None => WVal VEmptyList end
        | RPol PDisallow | RPol (PEvent _) => WRaise AttributeError
        | RPol (PConstant c) => WVal c
        | RDunder => match sb with Some v => WVal v | None => WFree end
@@ -160,6 +161,8 @@ Definition demand (g : rule) (sb : option Z) (o : op) : want * option (option Z)
                | None => (WRaise TraitError, Some sb)
                end
       | RPol PDisallow | RPol (PConstant _) => (WRaise TraitError, Some sb)
+      | RPol PList =>                        (* typed List(Int): no atom of the universe is a list *)
+          if Z.eqb v VUndef then (WDone, Some (Some v)) else (WRaise TraitError, Some sb)
       | RPol (PEvent None) => (WDone, Some sb)
       | RPol (PEvent (Some k)) =>            (* an event with a value type fires only for valid values *)
           match validate k v with Some _ => (WDone, Some sb) | None => (WRaise TraitError, Some sb) end
@@ -171,7 +174,7 @@ Definition demand (g : rule) (sb : option Z) (o : op) : want * option (option Z)
   | ODel _ =>
       match g with
       | RPol PPython => match sb with Some _ => (WDone, Some None) | None => (WRaise AttributeError, Some None) end
-      | RPol (PAny _) | RPol (PTyped _ _) | RDunder => (WDone, Some None)
+      | RPol (PAny _) | RPol (PTyped _ _) | RPol PList | RDunder => (WDone, Some None)
       | RPol PDisallow | RPol (PConstant _) | RPol (PReadOnly _) => (WRaise TraitError, Some sb)
       | RPol (PEvent _) => (WDone, Some sb)
       | RNone | RPol (PMap _ _) | RPol (PShadow _) => (WFree, None)
@@ -287,28 +290,28 @@ Section Law.
   Definition resync (m : name) (v : option Z) (od : list (name * Z)) : list (name * Z) :=
     match v with Some x => aset m x od | None => adel m od end.
 
-  (* a mapped trait comes and goes together with the shadow trait of name_ *)
+  (* a trait comes and goes together with its sub-traits (name_ of a Map, name_items of a List) *)
   Definition law_next (ls : lstate) (o : op) (ob : obs) : lstate :=
     let n := op_name o in
     let itd := match o, o_out ob with
                | OAdd _ p, Done =>
-                   aset n p (match mapped_of p with
-                             | Some m => aset (n ++ [US]) (PShadow m) (l_itd ls)
-                             | None => l_itd ls
-                             end)
+                   aset n p (fold_left (fun t e => aset (fst e) (snd e) t) (subs n p) (l_itd ls))
                | ORem _, Val _ =>
                    adel n (match found_trait ls n with
-                           | Some p => match mapped_of p with
-                                       | Some _ => adel (n ++ [US]) (l_itd ls)
-                                       | None => l_itd ls
-                                       end
+                           | Some p => fold_left (fun t k => adel k t) (map fst (subs n p)) (l_itd ls)
                            | None => l_itd ls
                            end)
                | _, _ => l_itd ls
                end in
     let od1 := resync n (o_stored ob) (l_od ls) in
     let od2 := resync (n ++ [US]) (o_shadow ob) od1 in
-    mkL itd (if ends_us n then resync (removelast n) (o_base ob) od2 else od2).
+    let od3 := if ends_us n then resync (removelast n) (o_base ob) od2 else od2 in
+    (* removing a List trait removes its name_items trait together with whatever was stored there
+       (not part of the observation of remove_trait(name)) *)
+    mkL itd (match o, o_out ob, found_trait ls n with
+             | ORem _, Val _, Some PList => adel (n ++ items_suffix) od3
+             | _, _, _ => od3
+             end).
 
   Fixpoint law_hist (i : Z) (ls : lstate) (h : list (op * obs)) : list Z :=
     match h with
